@@ -18,6 +18,7 @@ import json
 import os
 import random
 import re
+import shutil
 from concurrent.futures import ThreadPoolExecutor
 
 import vlib
@@ -217,6 +218,41 @@ def run(c):
                     x[0], x[2], x[3], x[1], dv["dev"]), {"relation": x, "measured": dv})
             else:
                 c.cov["traces_validated_against_impl"] += 1
+    # ---- snapshot round trip (spec/SnapshotRoundTrip.tla) -------------------------------------------------
+    sexe = vlib.build_harness("snap_harness")
+    r0 = vlib.tlc("SnapshotRoundTrip.tla", cfg, rd, workers=1, timeout=300, tag="snap0")
+    m = re.search(r'<<\s*"GEOMETRIES",\s*"(.*?)"\s*>>', r0.out, re.S)
+    if r0.rc != 0 or not m:
+        raise vlib.Inconclusive("SnapshotRoundTrip printed no geometries:\n" + r0.out[-1500:])
+    geos = sorted(json.loads(m.group(1)))
+    gsample = rng.sample(geos, min(len(geos), 12 if tier == "quick" else 150))
+    frames = [((1., 1., 1.), (0., 0., 0.)), ((0.9, 1.3, 0.35), (0.1, -0.7, 3.3)), ((3.0e16, 1.0e16, 2.0e16), (-1.5e16, 0., 1.0e15))]
+    sin, sout = os.path.join(rd, "snap.txt"), os.path.join(rd, "snap.ndjson")
+    with open(sin, "w") as fh:
+        for k, g in enumerate(gsample):
+            sd, an = frames[k % 3]
+            fh.write("%d %d %d %d %d %d %d %r %r %r %r %r %r\n" % (tuple(g) + (c.seed * 100 + k,) + sd + an))
+    stmp = c.rd.sub("snaptmp")
+    rc, o = vlib.sh("%s %s %s %s 2>&1" % (sexe, sin, sout, stmp), timeout=900)
+    done = vlib.read_ndjson(sout) if os.path.exists(sout) else []
+    if rc != 0 or len(done) != len(gsample):
+        c.violation("yaml:snapshot:abort", "writing a snapshot and reading it back as initial condition failed for geometry %s (rc=%d): %s" % (
+            gsample[len(done)] if len(done) < len(gsample) else "?", rc, o[-300:]), {"geometries": gsample})
+    else:
+        r1 = vlib.tlc("SnapshotRoundTrip.tla", cfg, rd, workers=1, timeout=300, tag="snap1", env={"RESULTS": sout})
+        m = re.search(r'<<\s*"BADSNAPS",\s*"(.*?)"\s*>>', r1.out, re.S)
+        if r1.rc != 0 or not m:
+            raise vlib.Inconclusive("SnapshotRoundTrip evaluation failed:\n" + r1.out[-1500:])
+        c.add_model("SnapshotRoundTrip", r1, "%d of %d geometries" % (len(gsample), len(geos)))
+        for g, fl, dv in zip(gsample, json.loads(m.group(1)), done):
+            c.add_case(("snapshot", tuple(g)), nontrivial=g[3] * g[4] * g[5] > 1)
+            if fl:
+                c.violation("yaml:snapshot:cells=%dx%dx%d:subgrids=%dx%dx%d" % tuple(g),
+                            "snapshot round trip on %s: largest relative deviations (1e-9) density %d, temperature %d, neutral fraction %d" % (
+                                g, dv["dev_n"], dv["dev_T"], dv["dev_x"]), {"geometry": g, "measured": dv})
+            else:
+                c.cov["traces_validated_against_impl"] += 1
+    shutil.rmtree(stmp, ignore_errors=True)
     c.cov["selftest"] = "n/a (plain equality of dictionaries); Layer B round trip asserted by TLC on every batch"
     c.cov["rule"] = ("all dictionaries with <= 4 (thorough: 5) entries over 14 paths (names a, b; depth <= 3) exhaustively + seeded random ones "
                      "(<= 8 entries, depth <= 6, 8 names incl. names with blanks, shared prefixes and nesting jumps); non-trivial = "
@@ -228,6 +264,7 @@ def run(c):
 
 def build():
     vlib.build_harness("yaml_harness")
+    vlib.build_harness("snap_harness")
 
 
 def replay(path):
